@@ -38,7 +38,7 @@ RULE = ("LTI/LTV: random matrices (n,m,q in 1..6) in 8 batch layouts (unbatched,
         "NLS: f,g are random polynomial/trigonometric expression trees in (x,u,t) (sympy, exact rational "
         "constants) generated with their symbolic Jacobians; reference points x*,u* in [-1.5,1.5], t* in 0..24 "
         "given explicitly (0-d int, 0-d float, (1,) tensors), by default (most recent call) or partially, read "
-        "immediately or after further calls, unbatched and in the batch-of-one layout (A,B only). One case = "
+        "immediately or after 1..3 further calls, unbatched and in the batch-of-one layout (A,B only). One case = "
         "one event / one call / one reference point; distinct = distinct (object, step) or input bit patterns; "
         "trivial = second-order cases whose true remainder is below the round-off floor (affine direction).")
 ASSUME = ["reference Jacobians are sympy derivatives of the generating expressions evaluated in numpy float64; "
@@ -47,8 +47,9 @@ ASSUME = ["reference Jacobians are sympy derivatives of the generating expressio
           "(sin/cos nodes contribute 1 + |argument|)",
           "batched NLS linearisation is not documented and not demanded (autograd returns the cross-batch "
           "Jacobian); only unbatched states and the batch-of-one layout used by MPC (A, B) are monitored",
-          "set_refpoint() without arguments refers to the state/input of the most recent call and the current "
-          "system time (as in the class docstring example), read before any further call",
+          "set_refpoint() without (some) arguments refers to the state/input of the most recent call and to the "
+          "system time current when set_refpoint ran (as in the class docstring example); like an explicit "
+          "reference point it must stay there while later calls / resets move the system time",
           "LTV.set_refpoint(t=t*): the matrices read afterwards must be those of t*; whether systime itself "
           "moves to t* is not specified, both 'unchanged' and 't*' are accepted and the automaton re-synchronises",
           "CPU only"]
@@ -310,7 +311,7 @@ def check_ltv_refpoint_mats(ck, model, s, t_star, regime):
                         regime, f"LTV.{name}", "shape"):
             continue
         err = np.abs(f64(got) - v[name]).max()
-        tol = 0.0 if model.family == "stack" else 8 * u_ * g[name].max()
+        tol = 0.0 if model.family == "stack" else 16 * u_ * g[name].max()
         ck.ratio("ltv_refpoint_matrices", regime, err, tol, f"LTV.set_refpoint(t)/{name}", "matrices_not_those_of_reference_time",
                  {"t_star": int(t_star), "family": model.family, "P": model.P, "name": name})
 
@@ -539,10 +540,10 @@ def run_nls_sequence(ck, rng, S, dn, seq_key, L):
     for step in range(L):
         ev = events[int(rng.integers(len(events)))] if step else "call"
         if pending is not None and pending[3] == 0:
-            xs, us, ts, _ = pending
+            xs, us, ts, _, how = pending
             pending = None
-            ck.mark("NLS/read-after-further-calls")
-            linearisation_monitor(ck, rng, s, S, xs, us, ts, dn, f"stale-proof/{tag}")
+            ck.mark("NLS/read-after-further-calls" if how == "stale-proof" else "NLS/default-refpoint/read-after-further-calls")
+            linearisation_monitor(ck, rng, s, S, xs, us, ts, dn, f"{how}/{tag}")
             auto.keep()
             after_event(ck, s, auto, "NLS", "read-properties", seq_key, step)
         if ev == "call":
@@ -555,7 +556,7 @@ def run_nls_sequence(ck, rng, S, dn, seq_key, L):
                 check_nls_outputs(ck, S, t0, x, u, out, dn, f"{tag}/{dn}")
                 last = (x, u)
             if pending is not None:
-                pending = pending[:3] + (pending[3] - 1,)
+                pending = pending[:3] + (pending[3] - 1, pending[4])
         elif ev == "eval()/train()":
             s.eval() if s.training else s.train()
             auto.keep()
@@ -586,7 +587,7 @@ def run_nls_sequence(ck, rng, S, dn, seq_key, L):
             if not okc:
                 continue
             if ev.endswith("+calls"):
-                pending = (f64(x), f64(u), float(t), int(rng.integers(1, 4)))
+                pending = (f64(x), f64(u), float(t), int(rng.integers(1, 4)), "stale-proof")
             else:
                 ck.mark("NLS/explicit-refpoint")
                 linearisation_monitor(ck, rng, s, S, f64(x), f64(u), float(t), dn, f"explicit/{tag}")
@@ -602,6 +603,8 @@ def run_nls_sequence(ck, rng, S, dn, seq_key, L):
             if okc:
                 ck.mark("NLS/default-refpoint")
                 linearisation_monitor(ck, rng, s, S, f64(last[0]), f64(last[1]), float(auto.t), dn, f"defaults/{tag}")
+                if rng.random() < 0.6:      # the reference point stays where it was set while the system moves on
+                    pending = (f64(last[0]), f64(last[1]), float(auto.t), int(rng.integers(1, 4)), "defaults-then-calls")
         else:  # partial defaults
             if last is None:
                 continue
@@ -617,6 +620,8 @@ def run_nls_sequence(ck, rng, S, dn, seq_key, L):
             if okc:
                 ck.mark("NLS/partial-refpoint")
                 linearisation_monitor(ck, rng, s, S, exp[0], exp[1], exp[2], dn, f"partial/{tag}")
+                if rng.random() < 0.6:
+                    pending = exp + (int(rng.integers(1, 4)), "defaults-then-calls")
 
 
 def run_nls_batch1(ck, rng, S, dn, reps):
@@ -689,6 +694,7 @@ def run(ck):
     ck.require("event/LTI/set_refpoint(t)", "event/LTV/set_refpoint(t)", "event/NLS/set_refpoint(x,u,t)",
                "event/NLS/set_refpoint(partial)", "event/NLS/read-properties")
     ck.require("NLS/explicit-refpoint", "NLS/default-refpoint", "NLS/partial-refpoint", "NLS/read-after-further-calls",
+               "NLS/default-refpoint/read-after-further-calls",
                "NLS/batch-of-one", "NLS/f64", "NLS/f32", "NLS/system/tree", "NLS/system/affine", "NLS/system/mild",
                "NLS/refpoint/t:int0d", "NLS/refpoint/t:float0d", "NLS/refpoint/t:int1d")
     ck.floor("contract_call_plus_one", 1500)
